@@ -238,6 +238,7 @@ namespace pika {
                 // The original libc++ implementation uses the inverse condition here, since it
                 // polls until the condition is true. Here we poll as long as the condition is true.
                 PIKA_VERIF_POINT("bar.poll", &base, old_phase, 0);
+                PIKA_VERIF_POST("bar.polled", &base, old_phase, phase.load(std::memory_order_relaxed));
                 return phase.load(std::memory_order_acquire) == old_phase;
             };
 
